@@ -3,8 +3,8 @@
 Programs: every architecture cell within the deviation bound over (class x signature incl. pseudo types x depth x
 blocks/downsamples x num_conv x activation x normalisation x pre-activation x bias mode x filter group x flags x
 extent x parameter perturbation x d). For every g of the symmetry group of the model's filter banks (computed
-stabiliser): model(g.x) == g.model(x) per output block at the requested type, AND in lock step at EVERY
-intermediate layer output (trace monitor). ResNets / conv blocks: every cyclic shift on toroidal inputs; U-Net:
+stabiliser): model(g.x) == g.model(x) per output block at the requested type, decided at the output; a lock-step trace monitor over
+EVERY intermediate layer output names the first diverging layer (and counts divergences that never reach the output). ResNets / conv blocks: every cyclic shift on toroidal inputs; U-Net:
 every shift by a multiple of 2^downsamples, with the shift-by-one run as a negative control that must differ.
 """
 import itertools as it
@@ -27,7 +27,7 @@ RULE = (
     "some g (and for U-Nets the shift-by-one control differs); distinct = cell."
 )
 ASSUMPTIONS = [
-    "L1: parameters and inputs are real: generic draws from VERIF_SEED, parameters perturbed by N(0, sigma^2) off initialisation; tolerance 2e-3 relative end to end and per layer; a mismatch must repeat on two further inputs to be reported",
+    "L1: parameters and inputs are real: generic draws from VERIF_SEED, parameters perturbed by N(0, sigma^2) off initialisation; tolerance 2e-3 relative end to end (the same threshold locates the first diverging layer in the trace); a mismatch must repeat on two further inputs to be reported",
     "the group is the computed stabiliser of the model's filter banks (conv and upsample banks)",
     "signatures are restricted to type sets that are stable under the bank (every mid type reachable); group norm only for k<=1 (the library's documented limit)",
     "L2: d=2 (quick: 2 cells in d=3; thorough: d=3 within 1 deviation); depth<=2, blocks<=2, downsamples<=2",
@@ -148,11 +148,15 @@ def run_case(case, seed):
         """returns (worst end-to-end, worst per-layer with location, moved, nonzero, control_differs)"""
         nonlocal evals
         y0, tr0 = forward(xb, flags)
-        worst = {"e": 0.0, "where": None, "g": None, "t": None}
+        # e/g/t: worst END-TO-END defect (this decides); layer*: first diverging intermediate layer (names the culprit)
+        worst = {"e": 0.0, "where": "output", "g": None, "t": None, "layer_e": 0.0, "layer": None}
 
         def upd(e, where, g, t):
-            if e > worst["e"]:
-                worst.update(e=e, where=where, g=g, t=t)
+            if where == "output":
+                if e > worst["e"]:
+                    worst.update(e=e, g=g, t=t)
+            elif e > TOL and (worst["layer"] is None or int(where[4:].split(":")[0]) < int(worst["layer"][4:].split(":")[0])):
+                worst.update(layer=where, layer_e=e)
 
         moved = nonzero = False
         for g in grp:
@@ -165,7 +169,6 @@ def run_case(case, seed):
                     moved = True
                 nonzero = nonzero or bool(np.any(y0[t] != 0))
             if len(trg) != len(tr0):
-                upd(np.inf, "trace-length", g, None)
                 continue
             for i, ((n0, b0), (n1, b1)) in enumerate(zip(tr0, trg)):
                 e0 = mlh.act_blocks(b0, g, D)
@@ -208,21 +211,22 @@ def run_case(case, seed):
         if confirmed:
             g = worst["g"]
             kind = "translation" if isinstance(g, tuple) else ("reflection" if G.det(g) < 0 else "rotation")
-            layer = worst["where"].split(":")[-1]
+            layer = (worst["layer"] or "output").split(":")[-1]
             t = worst["t"]
             tname = {(0, 0): "scalar", (0, 1): "pseudoscalar", (1, 0): "vector", (1, 1): "pseudovector"}.get(t, str(t))
-            bad(f"C07/{case['cls']}/{layer}/{tname}/{kind}", f"{case['cls']}: model(g.x) != g.model(x); first/worst divergence at {worst['where']} block {t}, relative defect {worst['e']:.2e}, witness {g if isinstance(g, tuple) else g.tolist()}")
+            bad(f"C07/{case['cls']}/{layer}/{tname}/{kind}", f"{case['cls']}: model(g.x) != g.model(x) on output block {t}, relative defect {worst['e']:.2e}, witness {g if isinstance(g, tuple) else g.tolist()}; first diverging layer in the lock-step trace: {worst['layer']} ({worst['layer_e']:.2e})")
         else:
             status = "unconfirmed"
     nt = bool(moved and nonzero and ctrl and len(grp) > 1)
-    res = {"violations": v, "nt": nt, "evals": evals, "metric": worst["e"], "outcome": f"{case['cls']}/d{D}/|G|={len(grp)}/ctrl={ctrl}"}
+    internal_only = worst["layer"] is not None and worst["e"] <= TOL
+    res = {"violations": v, "nt": nt, "evals": evals, "metric": worst["e"], "outcome": f"{case['cls']}/d{D}/|G|={len(grp)}/ctrl={ctrl}" + ("/internal-divergence-without-output-effect" if internal_only else "")}
     if status and not v:
         res["status"] = status
     return res
 
 
 CLAIM = {
-    "text": "Every architecture cell within the deviation bound builds the real U-Net / ResNet / dilated ResNet / conv block in equivariant mode, perturbs all parameters off initialisation and is run for every element of the computed symmetry group and every admissible shift; equivariance is checked at the output and, through a lock-step trace monitor, at every intermediate layer output, against an independent reference action.",
+    "text": "Every architecture cell within the deviation bound builds the real U-Net / ResNet / dilated ResNet / conv block in equivariant mode, perturbs all parameters off initialisation and is run for every element of the computed symmetry group and every admissible shift; equivariance is decided at the output against an independent reference action; a lock-step trace monitor over every intermediate layer output names the first diverging layer of a violation.",
     "note": "L1 applies (real parameters/inputs: generic draws, 2e-3 tolerance, confirm rule). Quick tier: 1 deviation plus class x {signature, norm, bias, flags} pairs; thorough: 2 deviations.",
     "technique": "deviation-bounded exhaustive enumeration of architectures x all group elements x all admissible shifts with a lock-step trace invariant",
 }
